@@ -351,6 +351,7 @@ CHECKS = {
             {"entry": M + "/sourcewrap.HarnessC20Slices", "pkgs": SW + ["github.com/fatih/structtag"], "must_reach": ["c20-slices-end"], "instrument": [M, M + "/sourcewrap"], "validate": 0},
             {"entry": M + "/sourcewrap.HarnessC20AnonFlatten", "pkgs": SW, "must_reach": ["c20-anon-end"], "instrument": [M, M + "/sourcewrap"], "validate": 0},
             {"entry": M + "/sourcewrap.HarnessC20BlankConcurrent", "pkgs": SW, "must_reach": ["c20-blank-conc-end"], "instrument": [M, M + "/sourcewrap"], "validate": 0},
+            {"entry": M + "/sourcewrap.HarnessC20Flatten", "pkgs": ENVP, "must_reach": ["c20-flatten-end"], "instrument": [M, M + "/sourcewrap"], "validate": 0},
         ],
         "bounds": {"quick": "1 wrapped source (value- or pointer-returning), 3 updates, all int64 values; a decoder shared by 2 config types; Blank: 3 operations, SetSource contexts, SetSource after Done; slices of structs unset/empty/1 element initially and on update through a recursing mangler; anonymous-flatten wrapper, overlapping SetSource calls, eager inner watcher, element structs with embedded/unexported parts", "thorough": "same"},
         "outside": "other mangler lists on the watch path",
